@@ -95,6 +95,12 @@ def run_config(cfg, rec):
             labels, entry, idx_dep = pl.spec_dataset_matrix(cfg, ds, src, pv)
             w = pl.spec_weight(cfg, ds, src)
             scale = pv[ds["scale"]] if ds.get("scale") else 1
+            holes = [var for var in ("clp", "residual", "fitted_data", "matrix", "data", "weight", "weighted_residual") if var in r
+                     and any(isinstance(x, float) and x != x for x in np.asarray(r[var].data, dtype=object).flat)]
+            if holes:
+                rec.unexpected(ctx, f"dataset {lab!r}: reported {holes} contain NaN (values lost when the arrays were put on the "
+                               f"dataset's coordinates)", "result:nan", wit)
+                continue
             structural = (
                 sorted(map(str, r["clp"].coords["clp_label"].values)) == sorted(labels)
                 and list(map(float, r.coords["model"].values)) == [float(v) for v in ds["maxis"]]
@@ -262,14 +268,14 @@ def _check_float(cfg, env):
                 wt = float(w(t, g)) if w else 1.0
                 sel = {"model": mv, "global": gv}
                 d, f, rs = (float(r[v].sel(**sel)) for v in ("data", "fitted_data", "residual"))
-                if abs(d - (f + rs)) > tol * max(1, abs(d)):
+                if not (abs(d - (f + rs)) <= tol * max(1, abs(d))):
                     return True, f"{head} at (model {mv}, global {gv}): data {d} != fitted {f} + residual {rs}"
-                if abs(rs - resid[row] / wt) > tol * max(1, abs(rs)):
+                if not (abs(rs - resid[row] / wt) <= tol * max(1, abs(rs))):
                     return True, (f"{head} at (model {mv}, global {gv}): residual {rs} but the best linear fit of the documented "
                                   f"problem leaves {resid[row] / wt}")
-                if w and abs(float(r["weighted_residual"].sel(**sel)) - wt * rs) > tol * max(1, abs(rs)):
+                if w and not (abs(float(r["weighted_residual"].sel(**sel)) - wt * rs) <= tol * max(1, abs(rs))):
                     return True, f"{head} at (model {mv}, global {gv}): weighted_residual != weight x residual"
-                if w and abs(float(r["weight"].sel(**sel)) - wt) > tol * max(1, abs(wt)):
+                if w and not (abs(float(r["weight"].sel(**sel)) - wt) <= tol * max(1, abs(wt))):
                     return True, (f"{head} at (model {mv}, global {gv}): reported weight {float(r['weight'].sel(**sel))} "
                                   f"but the weight applied there is {wt}")
                 if not ds.get("gmc"):
@@ -279,14 +285,14 @@ def _check_float(cfg, env):
                         if "global" in r["matrix"].dims:
                             msel["global"] = gv
                         acc += float(r["matrix"].sel(**msel)) * float(r["clp"].sel(clp_label=L, **{"global": gv}))
-                    if abs(f - scale * acc) > tol * max(1, abs(f)):
+                    if not (abs(f - scale * acc) <= tol * max(1, abs(f))):
                         return True, (f"{head} at (model {mv}, global {gv}): fitted_data {f} != dataset_scale x matrix x clp "
                                       f"= {scale * acc}")
             if not ds.get("gmc"):
                 full = pl.spec_full_clps(pb, clp_by, pv)
                 for L in labels:
                     c = float(r["clp"].sel(clp_label=L, **{"global": gv}))
-                    if abs(c - float(full[L])) > tol * max(1, abs(c)):
+                    if not (abs(c - float(full[L])) <= tol * max(1, abs(c))):
                         return True, f"{head} at global {gv}: clp[{L}] = {c}, documented {float(full[L])}"
     return False, "float results satisfy the identities"
 
